@@ -354,6 +354,38 @@ def run(ctx):
     from engine.run import borrow
     borrow(ctx, 'C11', ['WH-NOGROW'], 'metadata set too late (a string replaced after the audio was written) must never alter the audio: the variable-length header writers keep the data offset - fill a shorter header, refuse a longer one before writing it')
 
+    ctx.rule('TERM-AT-READ', 'header readers: where a text field is read with psf_binheader_readf (... "b", buf, N) and then terminated by `buf [E] = 0`, E is not beyond what was read: N - E, as a linear form, '
+             'has no negative term (the pad term `(size & 1)` counts as non-negative). A terminator placed behind the bytes read leaves characters of the chunk parsed before in the string', floor=8)
+    from engine.bufacc import lin as _lin12, ladd as _ladd12
+    n_tr = 0
+    for f_ in sorted(prog.lib_fns(), key=lambda f__: (f__.file, f__.line)):
+        if not (f_.name.endswith('_read_header') or 'subchunk' in f_.name or f_.name.endswith('_parse')):
+            continue
+        stores = [(a_, f_.unwrap(f_.N[a_['kids'][0]])) for lv_, a_, r_ in assigned_lvalues(f_) if r_ is not None and f_.unwrap(r_).get('v') == 0 and f_.unwrap(f_.N[a_['kids'][0]]).get('k') == 'ArraySubscriptExpr']
+        for c_ in f_.calls('psf_binheader_readf'):
+            args = f_.args(c_)
+            fm = f_.unwrap(args[1]).get('s') or ''
+            if not fm.rstrip('eE').endswith('b') or len(args) < 4:
+                continue
+            buf, N = f_.s(f_.unwrap(args[-2])), f_.unwrap(args[-1])
+            # the terminating store that follows the read in the same block
+            pc = f_.cfg.point(c_)
+            nxt = [(a_, l_) for a_, l_ in stores if f_.s(f_.unwrap(f_.N[l_['kids'][0]])) == buf and f_.cfg.point(a_) is not None and pc is not None and f_.cfg.point(a_)[0] == pc[0] and f_.cfg.point(a_)[1] > pc[1]]
+            if not nxt:
+                continue
+            a_, l_ = sorted(nxt, key=lambda x_: f_.cfg.point(x_[0])[1])[0]
+            try:
+                D = _ladd12(_lin12(f_, N), _lin12(f_, f_.unwrap(f_.N[l_['kids'][1]])), -1)
+            except Exception:
+                continue
+            n_tr += 1
+            neg = {k_: v_ for k_, v_ in D.items() if v_ < 0}
+            other = {k_: v_ for k_, v_ in D.items() if v_ > 0 and k_ != '' and '& 1' not in k_}
+            ok = not neg
+            ctx.ob('TERM-AT-READ', '%s@%s' % (f_.name, c_.get('l')), ok, f_.loc(a_), '`%s` terminates within the %s bytes read (difference %s)' % (f_.s(a_)[:40], f_.s(N)[:40], D) if ok else
+                   '`%s` puts the terminator behind the `%s` bytes that were read (read - index = %s): the string keeps characters left in the buffer by an earlier chunk' % (f_.s(a_)[:40], f_.s(N)[:50], D), None)
+    ctx.require(n_tr >= 8, 'only %d read-then-terminate sites found' % n_tr)
+
     ctx.rule('GUARD-FIELD', 'sf_command: a "too late" guard of the form `psf->F == NULL && psf->have_written` lets a repeated set of an item through when the item already exists; the F it tests is the '
              'field that the setter called next in the same arm stores (broadcast_var_set -> psf->broadcast_16k, cart_var_set -> psf->cart_16k): a guard that tests the neighbour\'s field lets a first '
              'cart through after the audio whenever a bext exists - the header no longer fits in front of the data', floor=2)
